@@ -4,8 +4,15 @@ import (
 	"fmt"
 	"math"
 	"sort"
+	"strings"
 
+	corev1 "k8s.io/api/core/v1"
+	"k8s.io/apimachinery/pkg/runtime/schema"
 	"k8s.io/apimachinery/pkg/util/sets"
+
+	v1 "sigs.k8s.io/karpenter/pkg/apis/v1"
+	"sigs.k8s.io/karpenter/pkg/cloudprovider/fake"
+	testv1alpha1 "sigs.k8s.io/karpenter/pkg/test/v1alpha1"
 
 	"sigs.k8s.io/karpenter/pkg/cloudprovider"
 	"sigs.k8s.io/karpenter/pkg/scheduling"
@@ -14,6 +21,44 @@ import (
 )
 
 // ------------------------------------------------------------------ Gallina emitters
+
+// Frequent strings are emitted as references to definitions placed in the header of every case file (the literal is
+// parsed once instead of once per occurrence; vm_compute unfolds the constants).
+var dict = []string{corev1.LabelTopologyZone, v1.CapacityTypeLabelKey, corev1.LabelInstanceTypeStable, testv1alpha1.LabelReservationID,
+	familyKey, tierKey, teamKey, "test-zone-1", "test-zone-2", "test-zone-3", v1.CapacityTypeSpot, v1.CapacityTypeOnDemand, v1.CapacityTypeReserved,
+	corev1.LabelArchStable, corev1.LabelOSStable, v1.NodePoolLabelKey, v1.NodeRegisteredLabelKey, v1.NodeInitializedLabelKey,
+	corev1.LabelHostname, "true", "amd64", "linux", "windows", "darwin", "gold", "silver", "c", "m", "r", "x", "y",
+	fake.LabelInstanceSize, fake.ExoticInstanceLabelKey, fake.IntegerInstanceLabelKey, "small", "large", "optional", "default",
+	v1.NodeClassLabelKey(schema.GroupKind{Group: "karpenter.test.sh", Kind: "TestNodeClass"})}
+
+var dictIdx = func() map[string]int {
+	m := map[string]int{}
+	for i, s := range dict {
+		m[s] = i
+	}
+	return m
+}()
+
+// gS renders a string, through the dictionary when it is listed there.
+func gS(s string) string {
+	if i, ok := dictIdx[s]; ok {
+		return fmt.Sprintf("s%d", i)
+	}
+	return kit.GStr(s)
+}
+
+func gSs(xs []string) string { return kit.GListOf(xs, gS) }
+
+// caseHeader is the Require line plus the dictionary and the well-known label list (AllowUndefinedWellKnownLabels).
+func caseHeader() string {
+	var b strings.Builder
+	b.WriteString("From KV Require Import C19.Model C19.Check.\n")
+	for i, s := range dict {
+		fmt.Fprintf(&b, "Definition s%d : string := %s.\n", i, kit.GStr(s))
+	}
+	fmt.Fprintf(&b, "Definition wk : list string := %s.", gSs(sets.List(v1.WellKnownLabels)))
+	return b.String()
+}
 
 func optInt(p *int) string {
 	if p == nil {
@@ -26,7 +71,7 @@ func optInt(p *int) string {
 func gReq(r *scheduling.Requirement) string {
 	compl, gte, lte, _ := r.VerifInternals()
 	vals := sets.List(sets.New(r.Values()...))
-	return fmt.Sprintf("(mkReq %s %s %s %s %s)", kit.GBool(compl), kit.GStrs(vals), optInt(gte), optInt(lte), optInt(r.MinValues))
+	return fmt.Sprintf("(mkReq %s %s %s %s %s)", kit.GBool(compl), gSs(vals), optInt(gte), optInt(lte), optInt(r.MinValues))
 }
 
 // gReqs renders a Requirements map as an association list sorted by key. keep == nil keeps every key.
@@ -38,7 +83,7 @@ func gReqs(rs scheduling.Requirements, keep func(string) bool) string {
 		}
 	}
 	sort.Strings(keys)
-	return kit.GListOf(keys, func(k string) string { return kit.GPair(kit.GStr(k), gReq(rs[k])) })
+	return kit.GListOf(keys, func(k string) string { return kit.GPair(gS(k), gReq(rs[k])) })
 }
 
 // priceUnits converts a dyadic float price into units of 2^-10; it panics when the value is not exactly representable
